@@ -7,6 +7,7 @@ CONSTANTS
   Admissible <- MCAdmissible
   MaxVariants = 2
   MaxFields = 3
+  Narrow = FALSE
   Vals = {0, 1, 2}
 INVARIANTS ImplMeetsDecl ImplMeetsProp FeedFunctionOfKey
 CHECK_DEADLOCK FALSE
